@@ -579,7 +579,7 @@ def _ol_from_dict(ind, reps='DICTOBS'):
         for k, v in d.items():
             if isinstance(v, dict):
                 v = dict_replace_obs(v)
-            elif isinstance(v, list) and all([isinstance(o, Obs) for o in v]):
+            elif isinstance(v, list) and len(v) > 0 and all([isinstance(o, Obs) for o in v]):
                 v = obslist_replace_obs(v)
             elif isinstance(v, list):
                 v = list_replace_obs(v)
